@@ -76,7 +76,7 @@ def run(ctx: Ctx) -> None:
                 f"{ac.MAX_CELLS} cells; non-trivial = the constructor accepted the input and at least one operation changed the "
                 "number of cells; distinct = distinct (cells, operations, fixed marks, tolerances)")
     ctx.assumptions.append("inputs are well-typed YAML trees (numbers, strings, dicts); type errors are outside the model")
-    n = ctx.n(700, 12000)
+    n = min(ctx.n(700, 12000), 5000)   # the x20 extended search is capped: histories are expensive
     pending: list = []
     seeds = getattr(ctx, "seed_inputs", None) or []
     for s in seeds[:20]:
@@ -84,6 +84,7 @@ def run(ctx: Ctx) -> None:
     for i in range(n):
         one(ctx, ctx.rng, "Q" if i % 2 == 0 else "F", pending, spec_steps)
     flush(ctx, pending)
+    ac.pysum_stream(ctx, ctx.n(300, 3000))
 
 
 def replay_input(ctx: Ctx, inp: dict, pending: list) -> None:
@@ -95,5 +96,12 @@ def replay_input(ctx: Ctx, inp: dict, pending: list) -> None:
 
 def replay(ctx: Ctx, body: dict) -> None:
     pending: list = []
+    if body["input"].get("op") == "pysum":
+        inp = body["input"]
+        xs = [float(x) for x in inp["xs"]]
+        rep = ctx.model([f"{inp['mode']} pysum {len(xs)} " + " ".join(ac.sc(x, inp["mode"]) for x in xs)])
+        if rep and rep[0] != ac.sc(float(sum(xs)), inp["mode"]):
+            ctx.disagree("pysum", inp, ac.sc(float(sum(xs)), inp["mode"]), rep[0])
+        return
     replay_input(ctx, body["input"], pending)
     flush(ctx, pending)
